@@ -69,10 +69,12 @@ impl TrainDisp {
                 .est_idx
                 .idx()];
 
+            // A train re-planned onto another branch while it waits cannot pass the next node
+            // before the time that is already fixed, even if the new branch's estimate is shorter
             if est_time_prev.idx_next == self.disp_path[self.disp_node_idx_free.idx()].est_idx {
-                time_update + est_time_prev.time_to_next
+                (time_update + est_time_prev.time_to_next).max(self.time_update)
             } else {
-                time_update
+                time_update.max(self.time_update)
             }
         } else {
             self.time_update
